@@ -238,6 +238,135 @@ def shared_pattern_findings(rng, tier):
     return found, nrun
 
 
+def constructor_findings(rng, tier):
+    """The same data handed over through the PUBLIC CONSTRUCTORS instead of a specification: the alignment is a list
+    of named sequences that can be filled in any order, also after it has been created (append / extend / insert /
+    reverse are list operations of the class).  Whatever the order in which the sequences end up stored, the
+    likelihood is the one of the specification."""
+    impl.load()
+    from torchtree.core.utils import process_object
+    from torchtree.evolution.alignment import Alignment, Sequence
+    from torchtree.evolution.site_pattern import SitePattern
+    from torchtree.evolution.tree_likelihood import TreeLikelihoodModel
+    found, nrun = [], 0
+    for _ in range(6 if tier == "quick" else 30):
+        can = gen_canonical(rng, tier)
+        n = can["n"]
+        ident = list(range(n))
+        for tip in ("partials_noamb", "states", "partials_amb"):
+            case = realise(can, can["tree"], ident, ident, can["seqs"], tip)
+            try:
+                want = float(c01.build(case)().detach())
+                d = c01.spec(case)
+                dic = {}
+                tree_model = process_object(d["tree_model"], dic)
+                site_model = process_object(d["site_model"], dic)
+                subst_model = process_object(d["substitution_model"], dic)
+                clock = process_object(d["branch_model"], dic) if "branch_model" in d else None
+                taxa = dic["taxa"]
+                aln_spec = d["site_pattern"]["alignment"]
+                seqs = [Sequence(q["taxon"], q["sequence"]) for q in aln_spec["sequences"]]
+                order = seqs[:]
+                rng.shuffle(order)
+                how = rng.choice(["extend", "append", "insert-front", "reverse"])
+                dt = process_object(aln_spec["datatype"], dic) if aln_spec["datatype"] != "nucleotide" else None
+                if dt is None:
+                    from torchtree.evolution.datatype import NucleotideDataType
+                    dt = NucleotideDataType(None)
+                aln = Alignment(None, [order[0]], taxa, dt)
+                if how == "extend":
+                    aln.extend(order[1:])
+                elif how == "append":
+                    for q in order[1:]:
+                        aln.append(q)
+                elif how == "insert-front":
+                    for q in order[1:]:
+                        aln.insert(0, q)
+                else:
+                    aln = Alignment(None, list(seqs), taxa, dt)
+                    aln.reverse()
+                like = TreeLikelihoodModel(None, SitePattern(None, aln), tree_model, subst_model, site_model, clock,
+                                           use_ambiguities=(tip == "partials_amb"), use_tip_states=(tip == "states"))
+                got = float(like().detach())
+            except Exception as e:      # noqa
+                found.append((f"C02:constructors:raises:{type(e).__name__}", f"{type(e).__name__}: {str(e)[:160]}",
+                              dict(kind="constructors", tip=tip)))
+                continue
+            nrun += 1
+            if not (math.isfinite(got) and abs(got - want) <= 1e-9 * max(1.0, abs(want))):
+                found.append((f"C02:constructors:sequence-order:{tip}",
+                              f"the alignment filled through {how} (stored order {[q.taxon for q in aln]}, taxa "
+                              f"{[t.id for t in taxa]}): likelihood {got!r}, from the specification {want!r}",
+                              dict(kind="constructors", how=how, tip=tip, stored=[q.taxon for q in aln],
+                                   can={k: v for k, v in can.items() if k != "edge"})))
+    return found, nrun
+
+
+def large_tree_rooting_findings(rng, tier):
+    """Root placement on a tree large enough for a site likelihood to fall into the SUBNORMAL range of a double
+    (between 4.9e-324 and 2.2e-308: the plain recursion neither overflows to -inf nor keeps its precision there): the
+    same unrooted tree with its lengths written in the newick string, rooted on several branches, must give the same
+    value (the pairs above use small trees, where no intermediate quantity leaves the normal range)."""
+    found, nrun = [], 0
+    n = 470 if tier == "quick" else 520
+    import sys
+    sys.setrecursionlimit(20000)
+    tree = trees.random_tree(rng, n, "random")
+    can = dict(n=n, tree=tree, kind="unrooted", names=[f"tx{j}" for j in range(n)],
+               subst=dict(type="HKY", kappa=2.5, freqs=[0.15, 0.35, 0.3, 0.2]), site=dict(type="constant"))
+    can["seqs"] = ["ACGT"[(j * j + j // 3) % 4] for j in range(n)]          # one column
+    cl = clades(tree)
+    splits = []
+
+    def rec(u, is_root):
+        if not is_root:
+            splits.append(split_key(cl[id(u)], n))
+        if not isinstance(u, int):
+            rec(u[0], False)
+            rec(u[1], False)
+    rec(tree, True)
+    ident = list(range(n))
+
+    def value(tr_, x, frac=0.5):
+        can["edge"] = {sp: x * (1.0 if k % 2 == 0 else 1.6) for k, sp in enumerate(dict.fromkeys(splits))}
+        v = realise(can, tr_, ident, ident, can["seqs"], "partials_noamb")
+        v["treem"] = dict(kind="unrooted", newick=newick_with_lengths(can, tr_, frac, False), bl=None)
+        return float(c01.build(v)().detach())
+    try:
+        # place the branch scale so that the site log-likelihood is in the middle of the subnormal band
+        # (with pseudo-random tip states the log-likelihood RISES with the branch scale up to saturation near
+        #  n ln(1/4): short branches make the observed differences improbable)
+        lo, hi = 0.01, 0.5
+        target = -726.0
+        for _ in range(30):
+            mid = math.sqrt(lo * hi)
+            f = value(tree, mid)
+            if not math.isfinite(f) or f < target:
+                lo = mid
+            else:
+                hi = mid
+        x = math.sqrt(lo * hi)
+        base = value(tree, x)
+        if not (-744.0 < base < -709.0):
+            return found, nrun          # the band could not be hit with this tree: nothing to compare
+        vals = [("as generated", base)]
+        for k in range(3):
+            rt = reroot(tree, rng)
+            vals.append((f"re-rooted #{k + 1}", value(rt, x, rng.choice([0.5, 0.2, 0.9]))))
+        nrun = len(vals)
+        for tag, v in vals[1:]:
+            if not (math.isfinite(v) and abs(v - base) <= 1e-9 * abs(base)):
+                found.append(("C02:reroot:subnormal-site-likelihood",
+                              f"{n}-taxon tree, one column, site log-likelihood {base!r} (subnormal as a likelihood): the "
+                              f"same tree {tag} gives {v!r}", dict(kind="large-tree-rooting", n=n, branch_scale=x,
+                                                                   values=vals)))
+                break
+    except Exception as e:      # noqa
+        found.append((f"C02:reroot:large-tree:raises:{type(e).__name__}", f"{type(e).__name__}: {str(e)[:160]}",
+                      dict(kind="large-tree-rooting")))
+    return found, nrun
+
+
 def perm_indices(rng, L):
     """an `indices` string selecting every column exactly once, in another order: pieces a:b and single
     positions, written with positive or negative numbers (the last column as -1 in particular)"""
@@ -379,6 +508,15 @@ def run(tier, seed, replay=None):
     shared_fs, n_shared = ([], 0) if replay else shared_pattern_findings(rng, tier)
     for f in shared_fs[:3]:
         rep.violation(*f)
+    big_fs, n_big = ([], 0) if replay else large_tree_rooting_findings(rng, tier)
+    for f in big_fs:
+        rep.violation(*f)
+    cons_fs, n_cons = ([], 0) if replay else constructor_findings(rng, tier)
+    seen_c = set()
+    for f in cons_fs:
+        if f[0] not in seen_c:
+            seen_c.add(f[0])
+            rep.violation(*f)
 
     # each specification against the model (the theorems give model(A) = model(B))
     t0 = time.time()
@@ -422,5 +560,7 @@ def run(tier, seed, replay=None):
                 "the taxa permuted as well (unrooted, reversible models), the same unrooted tree with its lengths written in "
                 "the newick string (keep_branch_lengths; root edge split anywhere, trifurcating root, re-rooted), columns selected in another order / written out through `indices`, three likelihoods sharing one site pattern in one document vs each alone; non-trivial = >= 3 taxa; distinct = distinct pair")
     rep.extra = dict(input_distribution=dist, traces_validated_against_impl=len(keys), pairs=len(results),
-                     documents_with_three_likelihoods_sharing_one_site_pattern=n_shared)
+                     documents_with_three_likelihoods_sharing_one_site_pattern=n_shared,
+                     likelihoods_built_with_the_public_constructors=n_cons,
+                     rootings_of_a_large_tree_in_the_subnormal_band=n_big)
     return rep.finish()
